@@ -190,7 +190,7 @@ def staticCodes : List String :=
   ["InvalidBucketName", "InvalidArgument", "InvalidRequest", "NotImplemented", "InvalidStorageClass",
    "IncompleteBody", "UnexpectedContent", "MalformedXML", "InvalidPartOrder", "PANIC"]
 
-/-- codes that depend on what is on disk (`InvalidPart`: a listed part file does not exist; since a00e4e8 it is no longer the
+/-- codes that depend on what is on disk (`InvalidPart`: a listed part file does not exist; since 0fcb858 it is no longer the
     answer to a complete_multipart_upload without a part list: that is `MalformedXML`, input-determined like
     `InvalidPartOrder`) -/
 def dynCodes : List String :=
